@@ -125,4 +125,4 @@ prop("C06", "other",
      bounded=[B3.c06_roundtrip])
 
 NOT_YET = {}
-FIX_COMMITS = ["240c9e2", "ba1006d", "dab453b", "5a0ad53", "5fe75a7", "1c7b42d", "0339f31", "a857da5", "9e872e5", "85d1ad8", "757eca2", "d1e41a0", "8960798", "e3fd882", "13caeae", "2f55341", "9fbbe28", "f7d2b94", "84aec75", "6e9e923", "062a851", "1878bb6", "36821b6"]
+FIX_COMMITS = ["240c9e2", "ba1006d", "dab453b", "5a0ad53", "5fe75a7", "1c7b42d", "0339f31", "a857da5", "9e872e5", "85d1ad8", "757eca2", "d1e41a0", "8960798", "e3fd882", "13caeae", "2f55341", "9fbbe28", "f7d2b94", "84aec75", "6e9e923", "062a851", "1878bb6", "36821b6", "65320be", "18e45ca", "b75876f"]
